@@ -131,4 +131,11 @@ TEXT = {
                  "Exploration over six translation classes including voxel-aligned shifts and origin crossings.",
         "note": "Trusted: the tolerance model (see assumptions). Chaotic cases (noise amplified beyond the cap) are reported as inconclusive, not as violations.",
     },
+    "C15": {
+        "technique": "rapidcheck property-based testing over thread counts and generated schedules (sleep plans at guarded scheduling points); differential against the single-threaded run; overlap detector on guarded list-access events; fault injection at generated list positions",
+        "level": "Bit-exact differential between thread counts and schedules on whole runs, a sound detector for 'list read while another thread "
+                 "resizes it' whose window is held open for milliseconds so that generated schedules hit it, and exception transport "
+                 "checked on the handler and its two real users. Found the resize-during-read in cell_divider::run (fixed). Sampling of schedules, not enumeration.",
+        "note": "Trusted: hooks H3 (23 added lines). No happens-before race detector is available for this code base (clang cannot compile it; g++ TSan + libgomp is unsound).",
+    },
 }
